@@ -572,7 +572,7 @@ func stack1(t vh.TB) *vh.E2E {
 }
 
 func runCase1(t vh.TB, c *RespCase) vh.Outcome {
-	return vh.Confirm(func(mult int) vh.Outcome { return runCase1Once(t, c, mult) })
+	return vh.Confirm(func(mult int) vh.Outcome { return stack1(t).Stack.Discount(runCase1Once(t, c, mult)) })
 }
 
 func runCase1Once(t vh.TB, c *RespCase, mult int) vh.Outcome {
@@ -661,7 +661,7 @@ func stack2(t vh.TB) *h2Stack {
 }
 
 func runCase2(t vh.TB, c *RespCase) vh.Outcome {
-	return vh.Confirm(func(mult int) vh.Outcome { return runCase2Once(t, c, mult) })
+	return vh.Confirm(func(mult int) vh.Outcome { return stack2(t).stack.Discount(runCase2Once(t, c, mult)) })
 }
 
 func runCase2Once(t vh.TB, c *RespCase, mult int) vh.Outcome {
